@@ -217,6 +217,14 @@ def normArgs : List Expr → IArg
   | [e] => .one e
   | es => .many es
 
+/-- `Gate.__init__`: a classical control value that does not fit the listed bits is refused
+(when the checkout has that test: `Gen.gateChecksControlValue`) -/
+def cvBad (cc : Option (List Nat)) (cv : Option Nat) : Bool :=
+  Gen.gateChecksControlValue &&
+    match cc, cv with
+    | some l, some v => decide (2 ^ l.length ≤ v)
+    | _, _ => false
+
 /-- gates added to the circuit for one call of a predefined gate on resolved qubits -/
 def addPredefined (name : Str) (regs : List Nat) (args : List Expr)
     (cc : Option (List Nat)) (cv : Option Nat) : Except Err (List IGate) :=
@@ -229,11 +237,11 @@ def addPredefined (name : Str) (regs : List Nat) (args : List Expr)
   | .ok _ =>
     if name == cs!"CX" then
       match regs with
-      | c :: t :: _ => .ok [⟨cs!"CNOT", [t], some [c], .none, cc, cv⟩]
+      | c :: t :: _ => if cvBad cc cv then .error .value else .ok [⟨cs!"CNOT", [t], some [c], .none, cc, cv⟩]
       | _ => .error .index
     else if name == cs!"U" then
       match regs with
-      | q :: _ => .ok [⟨cs!"QASMU", [q], none, .many args, cc, cv⟩]
+      | q :: _ => if cvBad cc cv then .error .value else .ok [⟨cs!"QASMU", [q], none, .many args, cc, cv⟩]
       | _ => .error .index
     else
       match Gen.shortcutRows.find? (fun r => r.1 == name) with
@@ -241,6 +249,7 @@ def addPredefined (name : Str) (regs : List Nat) (args : List Expr)
       | some (_, lib, tsel, csel, passArgs) =>
         match selTargets regs tsel, selTargets regs csel with
         | .ok ts, .ok cs =>
+          if cvBad cc cv then .error .value else
           .ok [⟨lib, ts, (match csel with | .none => none | _ => some cs),
                 if passArgs then normArgs args else .none, cc, cv⟩]
         | .error e, _ => .error e
@@ -352,6 +361,7 @@ def gateAdd (st : Init) (known : List (Str × List IGate)) (name : Str) (ps : Li
               | [] => .ok []
               | regs :: more =>
                 if firstDup regs then .error .value
+                else if cvBad cc cv then .error .value
                 else match loop2 more with
                   | .error e => .error e
                   | .ok l => .ok (IOp.custom gname regs cc cv inner :: l)
